@@ -392,7 +392,7 @@ DECOYS = ["near-miss", "mirror", "element", "loose", "loose", "out-of-plane"]
 def planted(draw, max_copies=4, pattern_classes=None, cell_classes=None, with_decoys=True, with_hints=True,
             atols=None, min_width_extra=0.0, width_factor=1.0, max_atoms=6, min_atoms=1, tightness=None,
             pose_classes=None, noise_levels=(0.0, 1 / 64.0, 1 / 32.0), min_copies=1, pat=None, extra_diam=None,
-            decoy_kinds=None, bystanders=0, oop_range=(2.05, 3.4)):
+            decoy_kinds=None, bystanders=0, oop_range=(2.05, 3.4), shuffle=True):
     """a periodic structure with planted copies of a pattern.  Returns a JSON-able case dict:
     cell, spos, sels, ppos, pels, atol, hints, seeds, meta"""
     atol = draw(st.sampled_from(atols or ATOLS))
@@ -480,6 +480,21 @@ def planted(draw, max_copies=4, pattern_classes=None, cell_classes=None, with_de
         sels.append(draw(st.sampled_from(["Zr", "Cu", "S"])))
     seeds = [draw(hperm.integers(0, 2 ** 31 - 1)), draw(hperm.integers(0, 2 ** 31 - 1))]
     meta = dict(cmeta)
+    # storage order: copies first, then decoys, then bystanders - or (half of the cases) any order; "idx" lists the atoms of
+    # each planted copy in pattern order
+    N = len(spos)
+    for c in copies:
+        c["idx"] = list(range(c["start"], c["start"] + n))
+    if shuffle and N > 1 and draw(st.booleans()):
+        order = list(draw(hperm.permutations(range(N))))           # new place k holds the old atom order[k]
+        new_of = {old: k for k, old in enumerate(order)}
+        spos = [spos[i] for i in order]
+        sels = [sels[i] for i in order]
+        for c in copies:
+            c["idx"] = [new_of[i] for i in c["idx"]]
+        meta["shuffled"] = True
+    for c in copies:
+        del c["start"]
     meta.update({"pattern_cls": pat["cls"], "copies": copies, "decoys": decoys, "hint_form": hform})
     return {"cell": cell, "spos": spos, "sels": sels, "ppos": ppos.tolist(), "pels": list(pat["els"]), "atol": atol,
             "hints": h, "seeds": seeds, "meta": meta}
